@@ -250,7 +250,19 @@ func (f *fakeProducer) SendMessages(msgs []*sarama.ProducerMessage) error {
 			} else if base > 0 {
 				continue
 			}
-			pe = append(pe, &sarama.ProducerError{Msg: m, Err: fmt.Errorf("scripted rejection of message %d", i)})
+			// the broker's reasons vary; for the worker every one of them means "not accepted"
+			var cause error = fmt.Errorf("scripted rejection of message %d", i)
+			switch i % 5 {
+			case 1:
+				cause = sarama.ErrMessageSizeTooLarge
+			case 2:
+				cause = fmt.Errorf("kafka: %w", sarama.ErrMessageSizeTooLarge)
+			case 3:
+				cause = sarama.ErrNotEnoughReplicas
+			case 4:
+				cause = sarama.ErrRequestTimedOut
+			}
+			pe = append(pe, &sarama.ProducerError{Msg: m, Err: cause})
 		}
 		if base > 0 && len(pe) == 0 {
 			return nil
